@@ -212,6 +212,19 @@ UNITS.append(dict(name="c04_statecostintegral_motionCost", template="C04/sci_mot
                   canaries=[dict(name="last_trapezoid_from_the_start_state", where="body:sci_motionCost", rx=r"DISTS\(test1, s2\)", repl="DISTS(s1, s2)"),
                             dict(name="previous_cost_not_advanced", where="body:sci_motionCost", rx=r"prevStateCost = nextStateCost;", repl=";")]))
 
+RSF = "src/ompl/geometric/planners/rrt/src/RRTstar.cpp"
+RR_RULES = [(r"Motion \*newSolution = nullptr;", "MotionRef newSolution = NIL;", 0), (r"ptc\.terminate\(\);", "terminates++;", 0), (r"std::vector<Motion \*> mpath;", "mpath_n = 0;", 0), (r"Motion \*iterMotion = newSolution;", "MotionRef iterMotion = newSolution;", 0),
+            (r"mpath\.push_back\(iterMotion\);", "MPATH_PUSH(iterMotion);", 0), (r"iterMotion = iterMotion->parent;", "iterMotion = M_parent[iterMotion];", 0), (r"auto path\(std::make_shared<PathGeometric>\(si_\)\);", "path_n = 0;", 0),
+            (r"mpath\.size\(\)", "(int)mpath_n", 0), (r"path->append\(mpath\[i\]->state\);", "PATH_APPEND(mpath[i]);", 0), (r"base::PlannerSolution psol\(path\);", "", 0), (r"psol\.setPlannerName\(getName\(\)\);", "", 0),
+            (r"psol\.setApproximate\((\w+)\);", r"{ sol_approx = true; sol_dif = \1; }", 0), (r"psol\.setOptimized\(opt_, (\w+)->cost, opt_->isSatisfied\((\w+)\)\);", r"SET_OPTIMIZED(M_cost[\1], OBJ_SATISFIED(\2));", 0),
+            (r"pdef_->addSolutionPath\(psol\);", "adds++;", 0), (r"si_->freeState\(xstate\);", "frees++;", 0), (r"if \(rmotion->state\)\s*si_->freeState\(rmotion->state\);", "frees++;", 0), (r"delete rmotion;", "", 0),
+            (r"return \{newSolution != nullptr, bestGoalMotion_ == nullptr\};", "{ PStatus r_ = {newSolution != NIL, bestGoalMotion_ == NIL}; return r_; }", 0), (r"\bnullptr\b", "NIL", 0)]
+RR_UNIT = dict(name="c04_rrtstar_report", template="C04/rrtstar_report.c", mode="plain", entry="h_rrtstar_report", flags=["--bounds-check", "--pointer-check", "--signed-overflow-check"], unwind=8, level="bounded", bound="chains of <= 4 motions", backend="cadical", timeout=300,
+               functions=["ompl::geometric::RRTstar::solve (reporting block)"],
+               sources=[dict(name="rrtstar_report", file=RSF, begin=r"Motion \*newSolution = nullptr;\s*if \(bestGoalMotion_\)", end=r"return \{newSolution != nullptr, bestGoalMotion_ == nullptr\};", end_inclusive=True, rules=RR_RULES, loops={"allow_uncontracted": True}, wrap_braces=False)],
+               canaries=[dict(name="cost_of_the_incumbent_for_an_approximate_path", where="body:rrtstar_report", rx=r"SET_OPTIMIZED\(M_cost\[newSolution\],", repl="SET_OPTIMIZED(bestCost_,")])
+UNITS.append(RR_UNIT)
+
 # BIT*'s incumbent update
 BITF = "src/ompl/geometric/planners/informedtrees/src/BITstar.cpp"
 BG_RULES = [
